@@ -810,6 +810,123 @@ def json_facts(repo: Path, out_dir: Path, report: dict) -> dict:
 	return f
 
 
+# ------------------------------------------------------------------------------------------------
+# glue whose shape the models rely on, pinned statement by statement (structural facts): the tree command (C17), the archive reader (C11),
+# how a database is opened by the library and by the command line (C04, C18)
+# ------------------------------------------------------------------------------------------------
+# module -> (source files, [(fact name, file, qualified name, expected statements, what it says)])
+FLOW_FACTS = {
+	'PyTreeFlow': ('src/gambit/cli/tree.py, src/gambit/cluster.py', [
+		('treeCmd', 'cli/tree.py', 'tree_cmd', [
+			"common.check_params_group(ctx, ['files_arg', 'listfile', 'sigfile'], True, True)",
+			'if cores is not None:\n    omp_set_num_threads(cores)',
+			"pconf = progress_config('click' if progress else None)",
+			"if sigfile is not None:\n    sigs = load_signatures(sigfile)\n    labels = [str(id_) for id_ in sigs.ids]\nelse:\n"
+			"    labels, genome_files = common.get_sequence_files(files_arg, listfile, ldir)\n"
+			"    common.warn_duplicate_file_ids(labels, 'Warning: the following file IDs are present more than once: {ids}')\n"
+			"    kspec = common.kspec_from_params(k, prefix, default=True)\n    sigfiles = SequenceFile.from_paths(genome_files, 'fasta', 'auto')\n"
+			"    sigs = calc_file_signatures(kspec, sigfiles, progress=pconf.update(desc='Calculating signatures'), max_workers=cores)",
+			"dmat = jaccarddist_pairwise(sigs, progress=pconf.update(desc='Calculating distances'))",
+			'link = hclust(dmat)', 'tree = linkage_to_bio_tree(link, labels)', "Phylo.write(tree, sys.stdout, 'newick')"],
+		 '`gambit tree`: labels are the decimal text of the signature file\'s IDs, or what `get_sequence_files` returns with the files (whose signatures '
+		 '`calc_file_signatures` returns in file order); the matrix is `jaccarddist_pairwise(sigs)` (square, all of them); the tree is '
+		 '`linkage_to_bio_tree(hclust(dmat), labels)` written as Newick; none of these names is assigned anywhere else'),
+		('hclust', 'cluster.py', 'hclust', ['assert dmat.ndim == 2', 'sm = squareform(dmat)', "return linkage(sm, method='average')"],
+		 '`hclust(dmat)` is SciPy\'s `linkage(squareform(dmat), method=\'average\')`: average linkage (UPGMA) on the condensed form of the matrix'),
+	]),
+	'PyArchiveReader': ('src/gambit/results.py', [
+		('init', 'results.py', 'ResultsArchiveReader.__init__', ['self.session = session', 'self._init_converter()', 'self._current_genomeset = None'],
+		 'a reader keeps the session it is given, builds its converter once, and holds no genome set between reads'),
+		('converter', 'results.py', 'ResultsArchiveReader._init_converter', [
+			'self._converter = gjson.converter.copy()',
+			'self._converter.register_structure_hook(ReferenceGenomeSet, self._structure_genomeset)',
+			'self._converter.register_structure_hook(AnnotatedGenome, self._structure_genome)',
+			'self._converter.register_structure_hook(Taxon, self._structure_taxon)'],
+		 'the converter is a copy of the module\'s converter with structure hooks for exactly the three database classes'),
+		('read', 'results.py', 'ResultsArchiveReader.read', ['with maybe_open(file_or_path) as f:\n    data = json.load(f)', 'return self.results_from_json(data)'],
+		 '`read` parses the file as JSON and structures it'),
+		('fromJson', 'results.py', 'ResultsArchiveReader.results_from_json', [
+			"gset_key = data['genomeset']['key']", "gset_version = data['genomeset']['version']",
+			'self._current_genomeset = self.session.query(ReferenceGenomeSet).filter_by(key=gset_key, version=gset_version).one()',
+			'try:\n    return self._converter.structure(data, QueryResults)\nfinally:\n    self._current_genomeset = None'],
+		 'the genome set is looked up by the archived key *and* version (exactly one), set for the duration of this read and cleared afterwards whatever happens'),
+		('genomeset', 'results.py', 'ResultsArchiveReader._structure_genomeset', ['return self._current_genomeset'],
+		 'an archived genome set becomes the genome set of this read'),
+		('genome', 'results.py', 'ResultsArchiveReader._structure_genome', [
+			"key = data['key']", 'gset_id = self._current_genomeset.id',
+			'return self.session.query(AnnotatedGenome).join(Genome).filter(AnnotatedGenome.genome_set_id == gset_id, Genome.key == key).one()'],
+		 'an archived genome is looked up afresh by its key within the genome set of this read (exactly one; nothing remembered from earlier reads)'),
+		('taxon', 'results.py', 'ResultsArchiveReader._structure_taxon', [
+			"key = data['key']", 'gset_id = self._current_genomeset.id', 'return self.session.query(Taxon).filter_by(genome_set_id=gset_id, key=key).one()'],
+		 'an archived taxon is looked up afresh by its key within the genome set of this read'),
+	]),
+	'PyLoadFlow': ('src/gambit/db/refdb.py, src/gambit/cli/common.py, src/gambit/db/models.py, src/gambit/sigs/base.py', [
+		('loadGenomeset', 'db/refdb.py', 'load_genomeset', ['session = file_sessionmaker(db_file)()', 'gset = only_genomeset(session)', 'return (session, gset)'],
+		 '`load_genomeset(file)` opens the default (read-only) session of `file_sessionmaker(file)` and takes the only genome set'),
+		('load', 'db/refdb.py', 'ReferenceDatabase.load', ['session, gset = load_genomeset(genomes_file)', 'sigs = load_signatures(signatures_file)', 'return cls(gset, sigs)'],
+		 '`ReferenceDatabase.load` pairs that genome set with `load_signatures(signatures_file)` through the constructor'),
+		('loadFromDir', 'db/refdb.py', 'ReferenceDatabase.load_from_dir', ['genomes_file, signatures_file = cls.locate_files(path)', 'return cls.load(genomes_file, signatures_file)'],
+		 '`load_from_dir` loads the two files `locate_files` names, genome file first'),
+		('onlyGenomeset', 'db/models.py', 'only_genomeset', [
+			"try:\n    return session.query(ReferenceGenomeSet).one()\nexcept MultipleResultsFound as e:\n    raise RuntimeError('Database contains multiple genome sets.') from e\n"
+			"except NoResultFound as e:\n    raise RuntimeError('Database contains no genome sets.') from e"],
+		 '`only_genomeset` is the single `ReferenceGenomeSet` row, an error when there are none or several'),
+		('loadSignatures', 'sigs/base.py', 'load_signatures', ['from .hdf5 import load_signatures_hdf5', 'return load_signatures_hdf5(path, **kw)'],
+		 '`load_signatures(path)` is `load_signatures_hdf5(path)`'),
+		('cliFindDb', 'cli/common.py', 'CLIContext._find_db', [
+			'if self._db_found:\n    return',
+			'if self.db_path is None:\n    self._has_genomes = self._has_signatures = False\nelse:\n    try:\n'
+			'        self._genomes_path, self._signatures_path = ReferenceDatabase.locate_files(self.db_path)\n    except DatabaseLoadError as e:\n'
+			'        raise click.ClickException(str(e))\n    self._has_genomes = self._has_signatures = True',
+			'self._db_found = True'],
+		 'the command line locates the two files with the same `locate_files`, once'),
+		('cliInitGenomes', 'cli/common.py', 'CLIContext._init_genomes', [
+			'if self._engine is not None or not self.has_genomes:\n    return',
+			"self._engine = create_engine(f'sqlite:///{self._genomes_path}')",
+			'self._Session = sessionmaker(self.engine, class_=ReadOnlySession)'],
+		 'the command line\'s session maker is `sessionmaker(engine, class_=ReadOnlySession)` on an engine created from the file URL alone'),
+		('cliEngine', 'cli/common.py', 'CLIContext.engine', ['self._init_genomes()', 'return self._engine'], '`engine` is that engine'),
+		('cliSession', 'cli/common.py', 'CLIContext.Session', ['self._init_genomes()', 'return self._Session'], '`Session` is that session maker'),
+		('cliSignatures', 'cli/common.py', 'CLIContext.signatures', [
+			'if self._signatures is None and self.has_signatures:\n    self._signatures = load_signatures(self._signatures_path)', 'return self._signatures'],
+		 'the command line\'s signatures are `load_signatures` of the located file, loaded once'),
+		('cliGetDatabase', 'cli/common.py', 'CLIContext.get_database', [
+			'self.require_database()', 'session = self.Session()', 'gset = only_genomeset(session)', 'return ReferenceDatabase(gset, self.signatures)'],
+		 '`get_database` pairs the only genome set of a read-only session with those signatures through the same constructor'),
+	]),
+}
+
+
+def flow_facts(repo: Path, out_dir: Path, report: dict):
+	"""Gen/PyTreeFlow.lean, PyArchiveReader.lean, PyLoadFlow.lean: one Boolean per pinned function (its statements are exactly the expected ones)"""
+	b = lambda x: 'true' if x else 'false'
+	trees = {}
+	for module, (files, facts) in FLOW_FACTS.items():
+		lines = []
+		for name, file, qual, want, doc in facts:
+			ok = False
+			try:
+				if file not in trees:
+					trees[file] = ast.parse((repo / 'src' / 'gambit' / file).read_text())
+				body, node = trees[file].body, None
+				for part in qual.split('.'):
+					node = next((x for x in body if isinstance(x, (ast.FunctionDef, ast.ClassDef)) and x.name == part), None)
+					if node is None:
+						break
+					body = node.body
+				ok = isinstance(node, ast.FunctionDef) and [ast.unparse(x) for x in _body(node)] == want
+			except (SyntaxError, OSError):
+				ok = False
+			lines.append(f'/-- {doc} -/\ndef py{module[2:]}_{name} : Bool := {b(ok)}\n')
+		text = (f'/-\nGENERATED by harness/pytrace.py from {files} — do not edit.\n'
+		        f'Regenerated at the start of every check; `GambitV.Tie.{module}` proves them.\n-/\nnamespace GambitV.Gen\n\n' + ''.join(lines) + '\nend GambitV.Gen\n')
+		p = out_dir / f'{module}.lean'
+		if not p.exists() or p.read_text() != text:
+			p.write_text(text)
+		report['modules'][module] = hashlib.sha1(text.encode()).hexdigest()[:12]
+		report['functions'].append(f'{files} ({len(facts)} functions pinned statement by statement, structural facts)')
+
+
 HEADER = '''/-
 GENERATED by harness/pytrace.py from src/gambit/sigs/hdf5.py — do not edit.
 Regenerated at the start of every check; `GambitV.Tie.PyHdf5` proves the trace equal to the model's `writerTrace`.
@@ -1036,6 +1153,7 @@ def regenerate(repo: Path, out_dir: Path) -> dict:
 		report['untranslatable'].append('results.py:CSVResultsExporter.COLUMNS: not a literal list of (name, path) string pairs')
 		report.setdefault('untranslatable_by_module', {}).setdefault('PyCsvColumns', []).append(report['untranslatable'][-1])
 	jf = json_facts(repo, out_dir, report)
+	flow_facts(repo, out_dir, report)
 	return report
 
 
